@@ -1,6 +1,7 @@
 import RepidModel.Base.Wire
 import RepidModel.Broker.InMemory
 import RepidModel.Broker.Redis
+import RepidModel.Broker.Rabbit
 
 namespace Repid.Driver
 open Repid
@@ -9,6 +10,7 @@ open Repid
 structure DState where
   mem : List (String × Mem.Q) := []
   redis : Redis.R := {}
+  rabbit : Rabbit.S := {}
   deriving Inhabited
 
 abbrev Handler := DState → String → List Sexp → Option (DState × Sexp)
